@@ -51,9 +51,19 @@ RATES = """RATES
 -start
 10 SAVE (PARM(2) * M - PARM(1) * KIN("rev_a")) * TIME
 -end
+ pair_f
+-start
+10 SAVE PARM(1) * M * TIME
+-end
+ pair_z
+-start
+10 rate = PARM(2)
+20 IF (M <= 0) THEN rate = 0
+30 SAVE rate * TIME
+-end
 """
 FORM = {"zero_a": ("NaBr", ("Na", "Br")), "first_a": ("KBr", ("K", "Br")), "chain_a": ("LiBr", ("Li", "Br")), "chain_b": ("KCl", ("K", "Cl")),
-        "rev_a": ("LiCl", ("Li", "Cl")), "rev_b": ("NaBr", ("Na", "Br"))}
+        "rev_a": ("LiCl", ("Li", "Cl")), "rev_b": ("NaBr", ("Na", "Br")), "pair_f": ("KBr", ("K", "Br")), "pair_z": ("NaCl", ("Na", "Cl"))}
 EL = ["Na", "K", "Li", "Cl", "Br"]
 
 
@@ -62,6 +72,8 @@ def exact(law, p, m0, t):
         return {"zero_a": max(m0["zero_a"] - p[0] * t, 0.0)}
     if law == "first":
         return {"first_a": m0["first_a"] * math.exp(-p[0] * t)}
+    if law == "pair":
+        return {"pair_f": m0["pair_f"] * math.exp(-p[0] * t), "pair_z": max(m0["pair_z"] - p[1] * t, 0.0)}
     if law == "chain":
         k1, k2 = p
         a = m0["chain_a"] * math.exp(-k1 * t)
@@ -133,15 +145,19 @@ def kin_block(law, names, m0, p, tol, integ, steps_text, step_divide=None):
 
 def build(ctx, case):
     r = ctx.rng("kin", case["i"])
-    law = r.choice(["zero", "first", "chain", "rev"])
+    law = r.choice(["zero", "first", "chain", "rev", "pair"])      # pair: two independent reactants in one entry, one first-order and one zero-order, in either order
     tol = r.choice([1e-6, 1e-8, 1e-8, 1e-10, 1e-12])
-    names = {"zero": ["zero_a"], "first": ["first_a"], "chain": ["chain_a", "chain_b"], "rev": ["rev_a", "rev_b"]}[law]
+    names = {"zero": ["zero_a"], "first": ["first_a"], "chain": ["chain_a", "chain_b"], "rev": ["rev_a", "rev_b"], "pair": ["pair_f", "pair_z"]}[law]
+    if law == "pair" and r.random() < 0.4:
+        names = names[::-1]
     m0 = {nm: gens.loguni(r, 1e-3, 0.05) for nm in names}
     T = gens.loguni(r, 1e2, 1e6)
     if law == "zero":
         p = [m0["zero_a"] * r.choice([0.3, 0.8, 1.5, 3.0]) / T]      # may exhaust before T
     elif law == "first":
         p = [r.uniform(0.2, 4.0) / T]
+    elif law == "pair":
+        p = [r.uniform(0.2, 4.0) / T, m0["pair_z"] * r.choice([0.1, 0.3, 0.6]) / T]
     else:
         k1 = r.uniform(0.3, 3.0) / T
         k2 = k1 * r.choice([0.2, 0.5, 2.0, 3.5])
